@@ -386,7 +386,9 @@ class _BaseODE:
         else:
             # # rb = np.ix_(np.atleast_1d(rb))[0]
             # rb = np.atleast_1d(rb)
-            rb = self._ensure_index_type(rb)
+            # (sorted: the partition relative to the non-rf part,
+            # `_rb`, is in ascending order)
+            rb = np.sort(self._ensure_index_type(rb))
             vec = np.zeros(self.n, bool)
             vec[rb] = True
             _rb = np.nonzero(vec[self.nonrf])[0]
